@@ -508,7 +508,22 @@ def closure_calls(S, owner, callee_pat):
         return False, 'unexpected first argument %s' % arg0
     loc = m.group(1)
     ok = loc == '_2' or re.search(r'%s = &(?:mut )?\(\*_2\)' % re.escape(loc), txt) or re.search(r'%s = (?:copy|move) _2\b' % re.escape(loc), txt)
-    return bool(ok), 'first argument of %s is %s' % (first[0].split('::')[-1], arg0)
+    if not ok:
+        return False, 'first argument of %s is %s' % (first[0].split('::')[-1], arg0)
+    # ... and it does so on EVERY path through the closure (no early return / cache hit that skips the call)
+    try:
+        paths = mir.cfg_paths(f)
+    except mir.Unsupported as e:
+        return False, 'paths of the closure cannot be enumerated (%s)' % e
+    n = 0
+    for pc, ev in paths:
+        sv = z3.Solver(); sv.add(*pc)
+        if sv.check() != z3.sat:
+            continue
+        n += 1
+        if not any(c != '=' and re.search(callee_pat, c) for (_b, c, _a, _d) in ev):
+            return False, 'a path through the closure does not call %s on its node (calls: %s)' % (callee_pat.rstrip('$'), [c.split('::')[-1][:24] for (_b, c, _a, _d) in ev if c != '='][:6])
+    return True, 'first argument of %s is %s, on all %d feasible paths' % (first[0].split('::')[-1], arg0, n)
 
 
 def lookup_closure(S):
